@@ -195,6 +195,8 @@ class RationalPolynomial:
         return self.numer == other.numer and self.denom == other.denom
 
     def __add__(self, other):
+        if hasattr(other, 'algebra'):
+            return NotImplemented  # Let the multivector deal with it.
         if not isinstance(other, self.__class__):
             other = self.__class__(other)
 
@@ -218,6 +220,8 @@ class RationalPolynomial:
         return self.__add__(other)
 
     def __mul__(self, other):
+        if hasattr(other, 'algebra'):
+            return NotImplemented  # Let the multivector deal with it.
         if not isinstance(other, self.__class__):
             other = self.__class__([[other]])
 
